@@ -65,3 +65,9 @@ Ltac ok_from H :=
   | _ = Some _ => eapply some_intro; exact H
   | _ => fail "no equation"
   end.
+
+(* [feed H tac]: discharge the first hypothesis of [H] by [tac] (whatever name the imported theorem gives it) *)
+Ltac feed H tac :=
+  match type of H with
+  | ?A -> _ => let X := fresh "X" in assert (X : A) by tac; specialize (H X); clear X
+  end.
